@@ -4,6 +4,7 @@ package rules
 // and the obligation that callers test the pointer before dereferencing it.
 
 import (
+	"go/token"
 	"go/types"
 	"sort"
 	"strings"
@@ -313,16 +314,7 @@ func ruleNilOnSuccess(c *report.Ctx) {
 					continue
 				}
 				// does g dereference the parameter where it is not known non-nil?
-				par := g.Params[ai]
-				var deref ssa.Instruction
-				an.Instrs(g, func(gi ssa.Instruction) {
-					if deref != nil {
-						return
-					}
-					if fa, ok := gi.(*ssa.FieldAddr); ok && fa.X == ssa.Value(par) && p.ValState(par, gi.Block(), nil) != an.NonNil {
-						deref = gi
-					}
-				})
+				deref := paramDeref(p, g, g.Params[ai])
 				if deref == nil {
 					continue
 				}
@@ -332,6 +324,100 @@ func ruleNilOnSuccess(c *report.Ctx) {
 			}
 		})
 	}
+}
+
+// paramDeref: an instruction of g — or of a function literal of g that captures the parameter — that selects a field
+// of the pointer parameter par where it is not known to be non-nil. A parameter captured by a literal lives in a
+// cell (stored once, on entry); loads of the cell, in g and through the literal's free variable, are the parameter.
+func paramDeref(p *an.Prog, g *ssa.Function, par *ssa.Parameter) ssa.Instruction {
+	var found ssa.Instruction
+	var scan func(f *ssa.Function, isPar func(v ssa.Value) bool, depth int)
+	scan = func(f *ssa.Function, isPar func(v ssa.Value) bool, depth int) {
+		if found != nil || f == nil || depth > 3 {
+			return
+		}
+		an.Instrs(f, func(gi ssa.Instruction) {
+			if found != nil {
+				return
+			}
+			switch x := gi.(type) {
+			case *ssa.FieldAddr:
+				if isPar(x.X) && p.ValState(x.X, gi.Block(), nil) != an.NonNil {
+					found = gi
+				}
+			case *ssa.MakeClosure:
+				inner, ok := x.Fn.(*ssa.Function)
+				if !ok {
+					return
+				}
+				for bi, bv := range x.Bindings {
+					if bi >= len(inner.FreeVars) {
+						break
+					}
+					fv := inner.FreeVars[bi]
+					switch {
+					case isPar(bv):
+						// captured by value (never reassigned): the free variable is the parameter
+						if p.ValState(bv, gi.Block(), nil) == an.NonNil {
+							continue
+						}
+						scan(inner, func(v ssa.Value) bool { return v == ssa.Value(fv) }, depth+1)
+					case isCellOf(bv, isPar):
+						if ld := loadOfCellBefore(bv, gi); ld != nil && p.ValState(ld, gi.Block(), nil) == an.NonNil {
+							continue
+						}
+						scan(inner, func(v ssa.Value) bool {
+							u, ok := v.(*ssa.UnOp)
+							return ok && u.Op == token.MUL && u.X == ssa.Value(fv)
+						}, depth+1)
+					}
+				}
+			}
+		})
+	}
+	cellPar := func(v ssa.Value) bool {
+		if v == ssa.Value(par) {
+			return true
+		}
+		u, ok := v.(*ssa.UnOp)
+		if !ok || u.Op != token.MUL {
+			return false
+		}
+		return isCellOf(u.X, func(w ssa.Value) bool { return w == ssa.Value(par) })
+	}
+	scan(g, cellPar, 0)
+	return found
+}
+
+// isCellOf: v is a local cell whose only store puts a value satisfying isVal into it.
+func isCellOf(v ssa.Value, isVal func(ssa.Value) bool) bool {
+	a, ok := v.(*ssa.Alloc)
+	if !ok || a.Referrers() == nil {
+		return false
+	}
+	n := 0
+	okVal := false
+	for _, r := range *a.Referrers() {
+		if st, isSt := r.(*ssa.Store); isSt && st.Addr == ssa.Value(a) {
+			n++
+			okVal = isVal(st.Val)
+		}
+	}
+	return n == 1 && okVal
+}
+
+// loadOfCellBefore: a load of cell in the block of in, before in (for a nil-test lookup at the closure's creation).
+func loadOfCellBefore(cell ssa.Value, in ssa.Instruction) ssa.Value {
+	var last ssa.Value
+	for _, x := range in.Block().Instrs {
+		if x == in {
+			break
+		}
+		if u, ok := x.(*ssa.UnOp); ok && u.Op == token.MUL && u.X == cell {
+			last = u
+		}
+	}
+	return last
 }
 
 var _ = report.New
